@@ -230,6 +230,18 @@ pub fn sites(_tier: Tier) -> Vec<Site> {
                 }
             }));
     }
+    // ... nor between threads: histories of 2 and 3 decodes spread over two threads
+    {
+        let want = ["Bl1", "Bl1r", "So1", "Ro10", "Ro10x", "As7", "Fe6r", "La2", "Ky3y", "We1"];
+        let mut corpus: Vec<(String, Vec<u8>)> = vec![];
+        for (code, t) in tracks.iter() {
+            if want.contains(&&**code) { if let Some(w) = wire(t) { corpus.push((format!("decode {code}"), w.to_vec())); } }
+        }
+        corpus.push(("decode bl1 (lower case)".into(), b"bl1\0\0\0".to_vec()));
+        corpus.push(("decode six NULs".into(), vec![0; 6]));
+        sites.push(crate::crossthread::site("C14", "cross-thread-decodes", "track decodes", corpus,
+            |b: &Vec<u8>| Track::read_le(&mut Cursor::new(&b[..])).map(|t| format!("{t:?} {} {:?}", t, wire(&t))).map_err(|_| ())));
+    }
     // the 6 bytes delivered in pieces: same track (or the same refusal) as from a plain cursor
     {
         let mut forms: Vec<Vec<u8>> = tracks.iter().filter_map(|(_, t)| wire(t)).collect();
